@@ -21,6 +21,7 @@ def sym(x):
 def spectrum(kind, n):
     """ascending list of n eigenvalues with a known cluster structure.
     sep   : mixed sign, gaps >= 0.55
+    edge  : the two extreme eigenvalues far outside, the interior compressed (n >= 6)
     clus  : entries 1,2 (0,1 when n == 2) 5e-4 apart, the rest as sep
     deg2  : entries 1,2 (0,1 when n == 2) exactly equal
     deg3  : entries 1,2,3 (0..2 when n == 3) exactly equal            (n >= 3)
@@ -43,6 +44,12 @@ def spectrum(kind, n):
     j = 0 if n == 2 else 1
     if kind == "sep":
         pass
+    elif kind == "edge":
+        # both extreme eigenvalues far outside (6 away), the interior compressed (gaps ~0.06 .. 0.11): a subspace
+        # method converges the outermost pair long before the next ones
+        lam = [-0.5 + 0.1 * (b + 1.3) for b in base]
+        lam[0] -= 6.0
+        lam[-1] += 6.0
     elif kind == "clus":
         lam[j + 1] = lam[j] + 5e-4
     elif kind == "near":
